@@ -153,6 +153,12 @@ func ReadEnvFile(filename string) (map[string]string, error) {
 	envscanner := bufio.NewScanner(f)
 	for envscanner.Scan() {
 		kv := strings.Split(envscanner.Text(), "=")
+		if len(kv) < 2 {
+			if strings.TrimSpace(kv[0]) == "" {
+				continue
+			}
+			return nil, fmt.Errorf("%s: line %q is not in the form name=value", filename, envscanner.Text())
+		}
 		envs[kv[0]] = kv[1]
 	}
 
